@@ -10,6 +10,7 @@
    No proofs here. *)
 From Coq Require Import List ZArith Bool Arith.
 From NT Require Import Sx Rose.
+From NTGen Require Import Generated.
 Import ListNotations.
 
 (* ---- graph keys: [n._data_id if unique_nodes else n._node_id] ---- *)
@@ -125,6 +126,93 @@ Definition mer_edges (u add_root : bool) (s : rt) : list medge :=
 Definition mer_export (u add_root : bool) (s : rt) : list mnode * list medge :=
   (mer_nodes u add_root s, mer_edges u add_root s).
 
+(* ------------------------------------------------ Mermaid, as text lines *)
+(* The edge and node templates are the GENERATED values lifted from
+   nutree/mermaid.py (DEFAULT_EDGE_TEMPLATE, DEFAULT_EDGE_TEMPLATE_TYPED,
+   DEFAULT_NODE_TEMPLATE); [tokenize] / [render] model str.format for
+   templates made of literal text and {field} references (no "{{" escapes,
+   no format specs: anything else fails closed with [None]). *)
+Inductive tok := TLit (s : text) | TField (s : text).
+
+Definition flush (acc : text) : list tok := match acc with [] => [] | _ => [TLit (rev acc)] end.
+
+Fixpoint tokenize_go (inb : bool) (acc : text) (s : text) : option (list tok) :=
+  match s with
+  | [] => if inb then None else Some (flush acc)
+  | c :: r =>
+      if inb then
+        if Z.eqb c 125 then option_map (cons (TField (rev acc))) (tokenize_go false [] r)
+        else if Z.eqb c 123 then None
+        else tokenize_go true (c :: acc) r
+      else
+        if Z.eqb c 123 then option_map (app (flush acc)) (tokenize_go true [] r)
+        else if Z.eqb c 125 then None
+        else tokenize_go false (c :: acc) r
+  end.
+Definition tokenize (s : text) : option (list tok) := tokenize_go false [] s.
+
+(* a missing field is a KeyError / AttributeError *)
+Fixpoint render (env : text -> option text) (ts : list tok) : option text :=
+  match ts with
+  | [] => Some []
+  | TLit s :: r => option_map (app s) (render env r)
+  | TField f :: r =>
+      match env f, render env r with
+      | Some v, Some w => Some (v ++ w)
+      | _, _ => None
+      end
+  end.
+
+Definition format_with (templ : text) (env : text -> option text) : option text :=
+  match tokenize templ with Some ts => render env ts | None => None end.
+
+(* str(int) for a non-negative int *)
+Fixpoint uint_text (d : Decimal.uint) : text :=
+  match d with
+  | Decimal.Nil => []
+  | Decimal.D0 r => 48 :: uint_text r | Decimal.D1 r => 49 :: uint_text r
+  | Decimal.D2 r => 50 :: uint_text r | Decimal.D3 r => 51 :: uint_text r
+  | Decimal.D4 r => 52 :: uint_text r | Decimal.D5 r => 53 :: uint_text r
+  | Decimal.D6 r => 54 :: uint_text r | Decimal.D7 r => 55 :: uint_text r
+  | Decimal.D8 r => 56 :: uint_text r | Decimal.D9 r => 57 :: uint_text r
+  end%Z.
+Definition dec (n : nat) : text := uint_text (Nat.to_uint n).
+
+Definition F_from_id : text := [102; 114; 111; 109; 95; 105; 100]%Z.      (* from_id *)
+Definition F_to_id : text := [116; 111; 95; 105; 100]%Z.                   (* to_id *)
+Definition F_kind : text := [107; 105; 110; 100]%Z.                        (* kind *)
+Definition F_node_name : text := [110; 111; 100; 101; 46; 110; 97; 109; 101]%Z.   (* node.name *)
+
+(* templ.format(from_id=.., from_node=.., to_id=.., to_node=.., kind=kind):
+   the node objects' reprs are not modelled (fail closed) *)
+Definition edge_env (i j : nat) (k : option text) (f : text) : option text :=
+  if text_eqb f F_from_id then Some (dec i)
+  else if text_eqb f F_to_id then Some (dec j)
+  else if text_eqb f F_kind then k
+  else None.
+
+Definition mer_edge_text (e : medge) : option text :=
+  match e with
+  | (Some i, Some j, l) =>
+      format_with (match l with Some _ => MERMAID_DEFAULT_EDGE_TEMPLATE_TYPED | None => MERMAID_DEFAULT_EDGE_TEMPLATE end)
+                  (edge_env i j l)
+  | _ => None                                                              (* KeyError in id_to_idx *)
+  end.
+
+(* f'0{{"{name}"}}' for the start node, f'{idx}("{node_mapper(n)}")' otherwise *)
+Definition mer_node_text (d : mnode) : option text :=
+  match d with
+  | (i, nm, true) => Some (dec i ++ [123; 123; 34]%Z ++ nm ++ [34; 125; 125]%Z)
+  | (i, nm, false) =>
+      option_map (fun v => dec i ++ [40; 34]%Z ++ v ++ [34; 41]%Z)
+                 (format_with MERMAID_DEFAULT_NODE_TEMPLATE
+                              (fun f => if text_eqb f F_node_name then Some nm else None))
+  end.
+
+(* the lines between "%% Nodes:" and the end of the chart *)
+Definition mer_text (x : list mnode * list medge) : list (option text) * list (option text) :=
+  (map mer_node_text (fst x), map mer_edge_text (snd x)).
+
 (* ------------------------------------------------------------------ RDF *)
 Inductive rnode := RLit (d : did) | RSys.   (* Literal(data_id) | URIRef(system_root) *)
 Inductive triple :=
@@ -201,7 +289,8 @@ Definition sx_mnode (d : mnode) : sx :=
 Definition sx_medge (e : medge) : sx :=
   match e with (a, b, l) => L [sx_onat' a; sx_onat' b; sx_otext l] end.
 Definition sx_mer (x : list mnode * list medge) : sx :=
-  L [sx_list sx_mnode (fst x); sx_list sx_medge (snd x)].
+  L [sx_list sx_mnode (fst x); sx_list sx_medge (snd x);
+     sx_list sx_otext (fst (mer_text x)); sx_list sx_otext (snd (mer_text x))].
 
 Definition sx_rnode (g : rnode) : sx :=
   match g with RLit d => sx_did d | RSys => L [A 2%Z] end.
